@@ -69,7 +69,7 @@ def procs_jobs(only, mixes, nq, nt, san_mix=None, crowd_mix=None, sweep_mixes=No
     # single-fault sweep: for each sampled fault-free base program, every (blocking call x instant in its window x fault kind x priority side)
     sw = sweep_mixes if sweep_mixes is not None else [m.split(",faults")[0] for m in mixes[:2]]
     for m in dict.fromkeys(sw):
-        jobs.append(J("procs", "rel", 500, 20000, cfg=m, only=only, sweep=True))
+        jobs.append(J("procs", "rel", 250, 12000, cfg=m, only=only, sweep=True))
     return jobs
 
 JOBS.update({
@@ -84,7 +84,7 @@ JOBS.update({
         wall_quick=55, wall_thorough=1200,
         assumptions=["the harness keeps its own belief of who holds each resource from the return values alone and compares it with the holder/in-use/available/held-by queries and the process's own list after every event"]),
     "C06": dict(level="fault_enumeration", rule=PROCS_RULE,
-        jobs=procs_jobs("C06", ["mix=res,faults=1", "mix=pool,faults=1", "mix=buf,faults=1", "mix=oq,faults=1", "mix=pq,faults=1", "mix=all,faults=2"], 600000, 16000000, crowd_mix="mix=all,faults=1,crowd=1", sweep_mixes=["mix=res", "mix=pool", "mix=buf", "mix=oq", "mix=pq"])
+        jobs=procs_jobs("C06", ["mix=res,faults=1", "mix=pool,faults=1", "mix=buf,faults=1", "mix=oq,faults=1", "mix=pq,faults=1", "mix=all,faults=2"], 400000, 16000000, crowd_mix="mix=all,faults=1,crowd=1", sweep_mixes=["mix=res", "mix=pool", "mix=buf", "mix=oq", "mix=pq"])
              + [J("hheap", "rel", 40000, 800000, cfg="cmp=1", only="C02")],
         wall_quick=55, wall_thorough=1200,
         assumptions=["judges wake-ups, not completion of a multi-step get/put (a woken waiter that finds nothing re-queues with a new entry time by design)",
@@ -97,7 +97,7 @@ JOBS.update({
         assumptions=["a process whose units vanish without it running, ending or being stopped is a preemption victim; the taker is the process that gained units in the same segment of the event",
                      "priorities are compared as they were at the latest of the start of the event and the preempting call"]),
     "C08": dict(level="fault_enumeration", rule=PROCS_RULE,
-        jobs=procs_jobs("C08", ["mix=res,faults=2", "mix=pool,faults=2", "mix=buf,faults=2", "mix=oq,faults=2", "mix=pq,faults=2", "mix=all,faults=2"], 600000, 16000000, crowd_mix="mix=all,faults=2,crowd=1", sweep_mixes=["mix=res", "mix=pool", "mix=buf", "mix=oq", "mix=pq"]),
+        jobs=procs_jobs("C08", ["mix=res,faults=2", "mix=pool,faults=2", "mix=buf,faults=2", "mix=oq,faults=2", "mix=pq,faults=2", "mix=all,faults=2"], 400000, 16000000, crowd_mix="mix=all,faults=2,crowd=1", sweep_mixes=["mix=res", "mix=pool", "mix=buf", "mix=oq", "mix=pq"]),
         wall_quick=55, wall_thorough=1200,
         assumptions=["evaluated at every instant boundary (detected retrospectively) and at quiescence through the public queries only"]),
     "C09": dict(level="fault_enumeration", rule=PROCS_RULE,
